@@ -102,11 +102,17 @@ def finish (st : ReplicaSt) (c : RCfg) (res : RState × List Out) : ReplicaSt ×
     let w'' := { w' with c := { c1 with truth := r'.truth, nextBytes := r'.nextBytes } }
     ({ st with w := w'', r := r', lastOuts := outs }, joinWith " ; " strs ++ " | " ++ dumpR w'' c r')
 
+/-- fields removed from the wire message (`drop=`) and signature fields whose BLS bytes are cut short
+(`trunc=`): a signature that does not decode is no signature (`QuorumSignatureFromProto` answers nil) -/
 def dropsOf (rest : List String) : List String :=
-  match field "drop" rest with
+  (match field "drop" rest with
   | some "-" => []
   | some d => splitChar ',' d
-  | none => []
+  | none => []) ++
+  (match field "trunc" rest with
+  | some "-" => []
+  | some d => splitChar ',' d
+  | none => [])
 
 def dropQCm (q : Option QC) (pre : String) (d : List String) : Option QC :=
   if d.contains pre then none else
@@ -126,6 +132,7 @@ def wireEvent (st : ReplicaSt) (kind name : String) (rest : List String) : Optio
   let s := st.w.c
   let d := dropsOf rest
   let frm := natField "from" rest
+  if (field "trunc" rest).isSome && s.cfg.scheme != .bls12 then none else   -- only BLS bytes can fail to decode
   match kind with
   | "propose" =>
     match s.blocks.lookup name with
